@@ -476,9 +476,36 @@ impl FlowGen {
             self.int_expr(&c, d.saturating_sub(1))
         } else {
             let mut stmts = self.seq_stmts(&mut c, d.saturating_sub(1), 1, 3);
+            if self.fault && self.rng.chance(1, 12) {
+                // the parameters live in the scope the body runs in: declaring one again is refused
+                let names: Vec<String> = params
+                    .iter()
+                    .filter_map(|p| match p {
+                        Lv::Ident(n, _) => Some(n.clone()),
+                        Lv::Default(inner, _) | Lv::Splat(inner) => match &**inner {
+                            Lv::Ident(n, _) => Some(n.clone()),
+                            _ => None,
+                        },
+                        _ => None,
+                    })
+                    .collect();
+                if !names.is_empty() {
+                    self.feat("redeclare-parameter");
+                    let n = self.rng.pick(&names).clone();
+                    let at = self.rng.below(stmts.len() + 1);
+                    stmts.insert(at, declare(&n, int(5)));
+                }
+            }
             let last = if self.rng.chance(1, 3) {
                 self.feat("return");
-                Ex::Return(Some(Box::new(self.int_expr(&c, 1))))
+                let r = Ex::Return(Some(Box::new(self.int_expr(&c, 1))));
+                if !self.frozen_body && self.rng.chance(1, 4) {
+                    // a `return` inside evaluated text leaves the enclosing lambda, not just `eval`
+                    self.feat("eval-return");
+                    Ex::Seq(vec![Ex::EvalOf(Box::new(r)), int(77)], false)
+                } else {
+                    r
+                }
             } else {
                 self.int_expr(&c, 1)
             };
@@ -750,6 +777,10 @@ impl FlowGen {
                         Box::new(Lv::Annot(Box::new(lv(&name)), Some(Box::new(var(&t))))),
                         Box::new(e),
                     )
+                } else if !self.frozen_body && self.rng.chance(1, 8) {
+                    // a declaration made by evaluated text lands in the calling scope
+                    self.feat("eval-declaration");
+                    Ex::EvalOf(Box::new(declare(&name, e)))
                 } else {
                     declare(&name, e)
                 }
